@@ -443,7 +443,10 @@ def shrink(rec, mask, budget=40):
     """Greedy shrinking that keeps the verdict status. Bounded number of harness round trips."""
     want = rec["status"]
     best = rec
+    t_start = time.time()
     for _ in range(budget):
+        if time.time() - t_start > 45:
+            break
         vs = parse_values(best["input"])
         if vs is None:
             break
